@@ -255,3 +255,25 @@ package entry
 //@     invariant off(result) == 0 && (result == nil || fresh(result))
 //@     invariant forall i int :: 0 <= i && i < len(result) ==> validEntry(result[i])
 //@     invariant forall i int :: 0 <= i && i < len(result) ==> (exists k string :: has(entries.(*OrderedMap).values, k) && entries.(*OrderedMap).values[k] == result[i])
+
+//@ func (*OrderedMap).Merge
+//@   requires omInv(o) && isOM(other)
+//@   lockrequires held[o.lock] >= 0 && held[other.(*OrderedMap).lock] >= 0
+//@   ensures isOM(result) && fresh(result) && fresh(result.(*OrderedMap).values) && freshKeys(result.(*OrderedMap))
+//@   ensures [merge-holds-only-values-of-its-arguments] forall k string :: has(result.(*OrderedMap).values, k) ==> (has(other.(*OrderedMap).values, k) && result.(*OrderedMap).values[k] == other.(*OrderedMap).values[k]) || (!has(other.(*OrderedMap).values, k) && has(o.values, k) && result.(*OrderedMap).values[k] == o.values[k])
+//@   ensures [merge-holds-every-key-of-its-arguments] forall k string :: has(o.values, k) || has(other.(*OrderedMap).values, k) ==> has(result.(*OrderedMap).values, k)
+//@   lockensures held[result.(*OrderedMap).lock] == 0
+//@   loop 0
+//@     invariant isOM(newMap) && fresh(newMap) && fresh(newMap.(*OrderedMap).values) && freshKeys(newMap.(*OrderedMap))
+//@     invariant forall k string :: has(newMap.(*OrderedMap).values, k) ==> has(o.values, k) && newMap.(*OrderedMap).values[k] == o.values[k]
+//@     invariant forall i int :: 0 <= i && i < $k ==> has(newMap.(*OrderedMap).values, o.keys[i])
+//@     lockinvariant held[newMap.(*OrderedMap).lock] == 0
+//@     loopmodifies newMap.(*OrderedMap).keys, mapof(newMap.(*OrderedMap).values)
+//@   loop 1
+//@     invariant isOM(newMap) && fresh(newMap) && fresh(newMap.(*OrderedMap).values) && freshKeys(newMap.(*OrderedMap))
+//@     invariant forall k string :: has(newMap.(*OrderedMap).values, k) ==> (has(other.(*OrderedMap).values, k) && newMap.(*OrderedMap).values[k] == other.(*OrderedMap).values[k]) || (has(o.values, k) && newMap.(*OrderedMap).values[k] == o.values[k])
+//@     invariant forall k string :: has(o.values, k) ==> has(newMap.(*OrderedMap).values, k)
+//@     invariant forall i int :: 0 <= i && i < $k ==> has(newMap.(*OrderedMap).values, other.(*OrderedMap).keys[i]) && newMap.(*OrderedMap).values[other.(*OrderedMap).keys[i]] == other.(*OrderedMap).values[other.(*OrderedMap).keys[i]]
+//@     invariant forall k string :: has(newMap.(*OrderedMap).values, k) && !has(o.values, k) ==> exists i int :: 0 <= i && i < $k && other.(*OrderedMap).keys[i] == k
+//@     lockinvariant held[newMap.(*OrderedMap).lock] == 0
+//@     loopmodifies newMap.(*OrderedMap).keys, mapof(newMap.(*OrderedMap).values)
